@@ -111,6 +111,20 @@ func solveOne(ob *Obligation, prelude string, gax []string, opts solveOpts) {
 		ob.Result, ob.Solver = "unsat", "trivial"
 		return
 	}
+	if ob.isFrame() && ob.Expect == "unsat" {
+		lq := ob.queryWith(prelude, gax, true)
+		lfile := filepath.Join(opts.dir, slug(ob.Name)+".lean.smt2")
+		if err := os.WriteFile(lfile, []byte(lq), 0o644); err == nil {
+			st, out, dur := runSolver(solvers[0], lfile, 3)
+			ob.TimeS += dur
+			if st == "unsat" {
+				ob.Raw[solvers[0].name] = fmt.Sprintf("%s (%.2fs, without quantified user facts) %s", st, dur, trunc(strings.TrimSpace(out), 100))
+				ob.Result, ob.Solver, ob.File = "unsat", solvers[0].name, lfile
+				return
+			}
+			os.Remove(lfile)
+		}
+	}
 	q := ob.query(prelude, gax)
 	file := filepath.Join(opts.dir, slug(ob.Name)+".smt2")
 	// avoid collisions
